@@ -422,6 +422,88 @@ fn function_level_signature(check: &Check) {
     }
 }
 
+/// Signature area (the 72-byte `(signature)` file) placed anywhere relative to the 64 KiB digest
+/// units — inside one unit, touching a boundary, straddling a boundary by every split, at the very
+/// start and the very end of the signed range. Every byte within 100 bytes of the area must
+/// invalidate the signature when changed; every byte *inside* the area is excluded from the
+/// digest and must not (that is where the signature itself is stored).
+fn function_level_signature_placement(check: &Check) {
+    let mut r = engine::rng(check.sub_seed("sigplace"));
+    use rand::Rng;
+    const U: usize = 65536;
+    const A: usize = 72;
+    let lens: &[usize] = if check.tier == engine::Tier::Quick { &[70_000, 140_000] } else { &[70_000, 140_000, 200_000, 65_536 + 36, 3 * 65_536] };
+    for &len in lens {
+        let mut data = vec![0u8; len];
+        r.fill(&mut data[..]);
+        let mut positions: Vec<usize> = vec![0, 1, 100, len / 2, len - A, len - A - 1];
+        for k in 1..=(len / U) {
+            let b = k * U;
+            for d in [A + 1, A, A - 1, 64, 37, 36, 9, 8, 7, 1] {
+                if b >= d {
+                    positions.push(b - d);
+                }
+            }
+            positions.push(b);
+            positions.push(b + 1);
+        }
+        if check.tier != engine::Tier::Quick {
+            for k in 1..=(len / U) {
+                for d in 1..A {
+                    positions.push(k * U - d);
+                }
+            }
+        }
+        positions.retain(|p| p + A <= len);
+        positions.sort();
+        positions.dedup();
+        for ex in positions {
+            let info = SignatureInfo::new_weak(0, len as u64, ex as u64, A as u64, vec![]);
+            let place = if ex / U != (ex + A - 1) / U { "straddles-unit-boundary" } else if ex % U == 0 || (ex + A) % U == 0 { "touches-unit-boundary" } else if ex == 0 || ex + A == len { "edge-of-range" } else { "inside-unit" };
+            let file = match generate_weak_signature(Cursor::new(&data), &info) {
+                Ok(f) => f,
+                Err(e) => {
+                    check.fail(&Fail::new("generate-weak-signature-fails", format!("len {len}, area at {ex}: {e}")), json!({"fn":"sign-at","len":len,"ex":ex}));
+                    continue;
+                }
+            };
+            let sig = file[8..72].to_vec();
+            match verify_weak_signature_stormlib(Cursor::new(&data), &sig, &info) {
+                Ok(true) => {}
+                other => {
+                    check.fail(&Fail::new(format!("generated-signature-does-not-verify:{place}"), format!("len {len}, area at {ex}: {other:?}")), json!({"fn":"verify-at","len":len,"ex":ex}));
+                    continue;
+                }
+            }
+            let lo = ex.saturating_sub(100);
+            let hi = (ex + A + 100).min(len);
+            let mut n = 0u64;
+            for i in lo..hi {
+                let inside = i >= ex && i < ex + A;
+                let mut d = data.clone();
+                d[i] ^= 1 << (i % 8);
+                let valid = matches!(verify_weak_signature_stormlib(Cursor::new(&d), &sig, &info), Ok(true));
+                n += 1;
+                if !inside && valid {
+                    check.fail(
+                        &Fail::new(format!("signature-valid-after-data-bit-flip:near-area:{place}"), format!("len {len}, signature area [{ex}, {}), changed signed byte {i} ({} bytes {} the area)", ex + A, if i < ex { ex - i } else { i - (ex + A) + 1 }, if i < ex { "before" } else { "after" })),
+                        json!({"fn":"flip-near","len":len,"ex":ex,"byte":i}),
+                    );
+                    break;
+                }
+                if inside && !valid {
+                    check.fail(
+                        &Fail::new(format!("signature-area-not-excluded-from-digest:{place}"), format!("len {len}, signature area [{ex}, {}): a change of byte {i} inside the area invalidates the signature", ex + A)),
+                        json!({"fn":"flip-inside","len":len,"ex":ex,"byte":i}),
+                    );
+                    break;
+                }
+            }
+            check.count_n(&format!("sigplace:len{len}:{place}"), n, &[format!("sigplace:{place}:off{}", ex % U)]);
+        }
+    }
+}
+
 fn worker() -> ! {
     engine::install_panic_hook();
     let storm = Storm::load(&ffi::lib_path()).expect("libstorm");
@@ -491,6 +573,7 @@ fn main() {
         let c = &v["case"];
         if c.get("fn").is_some() {
             function_level_signature(&check);
+            function_level_signature_placement(&check);
         } else {
             let f: Fault = serde_json::from_value(c.clone()).expect("fault");
             let spec = vcheck::engine::supervise::Spec { cpu_secs: 60, rlimit_as: 6 << 30, ..vcheck::engine::supervise::Spec::new("c10") };
@@ -505,6 +588,7 @@ fn main() {
     }
 
     function_level_signature(&check);
+    function_level_signature_placement(&check);
 
     let quick = check.tier == engine::Tier::Quick;
     for k in &ks {
